@@ -63,6 +63,13 @@ def gen_tasks(tier, seed):
                 for ex in es:
                     if ex != e0:
                         tasks.append({**base, "ignored": [ex]})
+                # a self loop ignored together with every edge at its node (the node's whole through-route is ignored)
+                for (u_, v_) in es:
+                    if u_ == v_:
+                        grp = [e for e in es if u_ in e]
+                        if len(grp) < len(es):
+                            tasks.append({**base, "ignored": grp})
+                            tasks.append({**base, "ignored": [(u_, u_)] + [e for e in grp if e != (u_, u_)][:1]})
         if inner:
             v, w = rng.choice(inner), rng.choice(inner)
             tasks.append({**base, "starts": [v], "ends": [w]})
